@@ -193,6 +193,8 @@ def snapshot_from(cell, frac, types, timestep=0, positions=None, layout=None):
         boxbounds = np.column_stack([cell["origin"], cell["origin"] + L])
         realbounds = None
     Hc = H.copy()
+    if layout == "fortran":
+        Hc = np.asfortranarray(Hc)        # the natural `cell.T` of a column-vector cell matrix; what scipy.linalg routines hand out
     if "readonly" in layout:
         for a in (L, boxbounds, realbounds, Hc):
             if a is not None:
@@ -208,6 +210,33 @@ def snapshots_from(snaps):
 
 
 UNWRAP_COUNTS = {}
+UNIT_COUNTS = {}
+
+
+def rescale_units(snaps, cell, inf, u):
+    """the same trajectory in another unit of length (R10): positions, bounds, lengths and cell vectors multiplied by u; new objects with the
+    same in-memory representation.  Returns (Snapshots, cell, inf)."""
+    SingleSnapshot, Snapshots = records()
+    new = []
+    for s in snaps.snapshots:
+        pos = np.asarray(s.positions) * u
+        if np.asarray(s.positions).flags.f_contiguous and pos.ndim == 2 and not pos.flags.f_contiguous:
+            pos = np.asfortranarray(pos)
+        if not np.asarray(s.positions).flags.writeable:
+            pos.setflags(write=False)
+        new.append(SingleSnapshot(timestep=s.timestep, nparticle=s.nparticle, particle_type=s.particle_type, positions=pos,
+                                  boxlength=np.asarray(s.boxlength) * u, boxbounds=np.asarray(s.boxbounds) * u,
+                                  realbounds=None if s.realbounds is None else np.asarray(s.realbounds) * u, hmatrix=np.asarray(s.hmatrix) * u))
+    cell = dict(cell)
+    cell["H"] = cell["H"] * u
+    cell["origin"] = np.asarray(cell["origin"]) * u
+    cell["tilt"] = tuple(t * u for t in cell["tilt"])
+    inf = dict(inf)
+    if "Hs" in inf:
+        inf["Hs"] = [np.asarray(H) * u for H in inf["Hs"]]
+    inf["unit_of_length"] = u
+    UNIT_COUNTS["trajectories_in_other_units_of_length"] = UNIT_COUNTS.get("trajectories_in_other_units_of_length", 0) + 1
+    return Snapshots(nsnapshots=len(new), snapshots=new), cell, inf
 
 
 def unwrap_in_place(rng, snapshots, Hs, ppp, prob=0.25, maxshift=3):
